@@ -196,8 +196,43 @@ class Run:
         log(f"[record] {label} ({profile}): {cnt} events, {dt:.1f}s")
         return tr
 
-    def validate(self, module, cfg, trace, timeout=1800, label=None, count=True, expect_reject=False):
-        """impl -> spec: TLC decides whether the recorded trace is a behaviour of the trace spec."""
+    def validate(self, module, cfg, trace, timeout=1800, label=None, count=True, expect_reject=False, split=40000, jobs=5):
+        """impl -> spec: TLC decides whether the recorded trace is a behaviour of the trace spec.
+        Trace validation is a single chain (one TLC worker); a long trace is cut at session boundaries ("reset" events, after
+        which every trace spec is back in its initial state) and the parts are validated by concurrent TLC processes."""
+        label = label or os.path.basename(trace).replace(".trace.ndjson", "")
+        if not expect_reject:
+            parts = self._split_trace(trace, split)
+            if len(parts) > 1:
+                from concurrent.futures import ThreadPoolExecutor
+                with ThreadPoolExecutor(max_workers=jobs) as ex:
+                    res = list(ex.map(lambda kp: self._validate_one(module, cfg, kp[1], timeout, f"{label}.p{kp[0]:02d}", count, False), enumerate(parts)))
+                return all(r[0] for r in res), [m for r in res for m in r[1]]
+        return self._validate_one(module, cfg, trace, timeout, label, count, expect_reject)
+
+    def _split_trace(self, trace, split):
+        lines = open(trace).read().splitlines(True)
+        if len(lines) <= split * 3 // 2:
+            return [trace]
+        parts, cur = [], []
+        for ln in lines:
+            cur.append(ln)
+            if len(cur) >= split and ln.startswith('{"op":"reset"'):
+                parts.append(cur)
+                cur = []
+        if cur:
+            parts.append(cur)
+        if len(parts) < 2:
+            return [trace]
+        out = []
+        for k, p_ in enumerate(parts):
+            f = trace.replace(".trace.ndjson", "") + f".p{k:02d}.trace.ndjson"
+            with open(f, "w") as fh:
+                fh.writelines(p_)
+            out.append(f)
+        return out
+
+    def _validate_one(self, module, cfg, trace, timeout=1800, label=None, count=True, expect_reject=False):
         module_p = os.path.join(SPEC, module)
         cfg_p = os.path.join(SPEC, cfg)
         env = {"TRACE": trace, "JAVA_TOOL_OPTIONS": "-Dtlc2.tool.queue.IStateQueue=StateDeque"}
@@ -362,8 +397,11 @@ class Run:
         cov["exhaustive"] = bool(self.exhaustive)
         ev = dict(property_id=self.prop, tier=self.tier, seed=int(self.seed), level="model_checking",
                   coverage=cov, assumptions=self.assumptions, wall_s=round(time.time() - self.t0, 1), violations=nviol)
-        os.makedirs(EVID, exist_ok=True)
-        with open(os.path.join(EVID, self.prop + ".json"), "w") as f:
+        # a run against a scratch copy of the repository (VERIF_REPO, used to try the checks on changed code) is not evidence
+        # about /repo: its record goes next to its other outputs
+        evid = EVID if not os.environ.get("VERIF_REPO") else self.dir
+        os.makedirs(evid, exist_ok=True)
+        with open(os.path.join(evid, self.prop + (".json" if evid == EVID else ".evidence.json")), "w") as f:
             json.dump(ev, f, indent=1)
 
 
